@@ -65,9 +65,24 @@ def st_c12_range(draw):
 
 
 @st.composite
-def st_case(draw):
-    kind = draw(st.sampled_from(["pred", "pred", "pred", "range", "expr"]))
+def st_literal_memberships(draw):
+    """Two or three memberships in sequences of literals, combined in one predicate (one statement)."""
     cols = [A, B, C]
+    parts = []
+    for _ in range(draw(st.integers(2, 3))):
+        item = ("ref", draw(st.sampled_from(cols)))
+        seq = tuple(("lit", v) for v in draw(st.lists(st.integers(-3, 3), min_size=1, max_size=3)))
+        m = ("inseq", item, seq)
+        parts.append(("not", m) if draw(st.integers(0, 4)) == 0 else m)
+    return (draw(st.sampled_from(["and", "or"])), tuple(parts))
+
+
+@st.composite
+def st_case(draw):
+    kind = draw(st.sampled_from(["pred", "pred", "pred", "range", "expr", "literal-memberships"]))
+    cols = [A, B, C]
+    if kind == "literal-memberships":
+        return ("pred", draw(st_literal_memberships()))
     if kind == "expr":
         return ("expr", draw(st_expr(cols, draw(st.integers(1, 4)))))
     if kind == "range":
@@ -108,6 +123,37 @@ def operators(p, out):
         operators(p[1], out)
 
 
+_SHARED = None
+
+
+def shared_engines():
+    """One iteration and one SQL engine that live for the whole process and see every expression of every case:
+    engines are long-lived objects in real use, and conversion must not depend on what they converted before."""
+    global _SHARED
+    if _SHARED is None:
+        from lsst.daf.relation import iteration, sql
+
+        _SHARED = (iteration.Engine(name="shared-it"), sql.Engine(name="shared-sql"))
+    return _SHARED
+
+
+def check_shared(kind, lib_obj, fresh_values, ctx):
+    """The long-lived engine must convert to a callable that agrees with the fresh engine's on every row."""
+    it, _ = shared_engines()
+    try:
+        f = it.convert_column_expression(lib_obj) if kind == "expr" else it.convert_predicate(lib_obj)
+        vals = [f(r) for r in ROWS]
+    except Exception as ex:
+        raise Violation("iteration-raised", f"long-lived engine: {type(ex).__name__}: {ex}; {ctx}", exc=ex, nondeterministic=True)
+    for r, a, b in zip(ROWS, vals, fresh_values):
+        if (a != b) if kind == "expr" else (bool(a) != bool(b)):
+            raise Violation(
+                "engine-state-leak",
+                f"{ctx} on {(r[A], r[B], r[C])}: an engine that converted other expressions before gives {a}, a fresh engine gives {b}",
+                nondeterministic=True,
+            )
+
+
 def run_case(case, stats):
     from lsst.daf.relation import iteration, sql
 
@@ -123,6 +169,7 @@ def run_case(case, stats):
         le = lib_e(e)
         ref = {(r[A], r[B], r[C]): eval_e(e, r) for r in ROWS}
         f = it.convert_column_expression(le)
+        check_shared("expr", le, [ref[(r[A], r[B], r[C])] for r in ROWS], ctx)
         for r in ROWS:
             try:
                 got = f(r)
@@ -165,6 +212,7 @@ def run_case(case, stats):
     if it_true != ref_true:
         d = sorted(it_true ^ ref_true)[:3]
         raise Violation("iteration-differs", f"{ctx}: iteration engine and reference disagree on rows (a,b,c) {d}")
+    check_shared("pred", lp, [(r[A], r[B], r[C]) in ref_true for r in ROWS], ctx)
     for how in ("convert_predicate", "convert_flattened_predicate"):
         try:
             if how == "convert_predicate":
